@@ -570,8 +570,51 @@ def eval_key(k, env):
     raise AnalysisError(f"cannot evaluate {fmt(k)}")
 
 
-def W8_info(rep, flow: Flow, fq="mub_circuits.get_mub_info"):
+def W8_info(rep, flow: Flow, fq="mub_circuits.get_mub_info", tables=None):
     rep.rule("W8", "info dictionary: 'max two-qubit count' / 'max two-qubit depth' / 'average two-qubit count' are header fields 1 / 2 / 0 (the latter divided by the number of circuits) of line 0 of the requested MUB file; 'num circuits' evaluates to 2^n+1 for n = 2..6", floor=4)
+    try:
+        _w8_symbolic(rep, flow, fq)
+    except AnalysisError as ex:
+        # entries that are COMPUTED (from the parsed circuits, through a table of key functions ...): the accessor is
+        # evaluated for every advertised configuration - the clause's whole domain - against the file's header
+        if tables is None or not _w8_evaluate(rep, flow, fq, tables, str(ex)):
+            raise
+
+
+def _w8_evaluate(rep, flow, fq, T, why):
+    from . import consteval
+    from .consteval import CE, CERaise
+    f = flow.prog.func(fq)
+    n_ok = 0
+    for tf in T.adv_mub:
+        if tf.header is None or any(L.problems for L in tf.lines):
+            continue
+        ce = CE(flow.prog, max_steps=50_000_000)
+        try:
+            got = ce.call_func(f, [tf.n, tf.conn], {})
+        except CERaise as ex:
+            rep.finding("W8", f"{fq}:{tf.name}:raise", f"{ex.where or f.module.rel}: {f.qualname}({tf.n}, {tf.conn!r}) raises {ex.etype} ({ex.msg[:80]})")
+            return True
+        except AnalysisError:
+            return False
+        if not isinstance(got, dict):
+            return False
+        num = 2 ** tf.n + 1
+        want = {"num circuits": num, "max two-qubit count": tf.header[1], "max two-qubit depth": tf.header[2], "average two-qubit count": tf.header[0] / num}
+        for key, w in want.items():
+            g = got.get(key)
+            same = isinstance(g, (int, float)) and not isinstance(g, bool) and abs(g - w) < 1e-9
+            if not same:
+                rep.finding("W8", f"{fq}:{key}:evaluated", f"{f.module.rel} {f.qualname}({tf.n}, {tf.conn!r}): '{key}' evaluates to {g!r}; the header of {tf.name} ({':'.join(map(str, tf.header))}) and 2^{tf.n}+1 = {num} give {w!r}")
+                return True
+        n_ok += 1
+    if n_ok == 0:
+        return False
+    rep.ok("W8", 4, nontrivial=(fq, "evaluated"), sample=f"{f.qualname}: entries are computed ({why[:100]}); evaluated for all {n_ok} advertised configurations, equal to header fields and 2^n+1")
+    return True
+
+
+def _w8_symbolic(rep, flow: Flow, fq):
     f = flow.prog.func(fq)
     rets = [r for r in flow.paths(fq) if r.kind == "return"]
     if not rets:
@@ -681,6 +724,55 @@ def W10_requested_file(rep, flow: Flow, fqs=("mub_circuits.get_mub_circuits", "m
                     raise AnalysisError(f"{fq}: the file name read at {ev[2]} is built from {fmt(nk)[:60]} / {fmt(ck)[:60]}: whether that names the requested table cannot be decided")
         if not seen:
             raise AnalysisError(f"{fq}: no table read on any path (anchor vanished)")
+
+
+def K20_mub_record(rep, flow: Flow, T, fqs=("mub_circuits.get_mubs", "mub_circuits.get_mub_circuits")):
+    """the whole finite domain of the MUB accessors - the advertised (num_qubits, connectivity) pairs - evaluated: what
+    get_mubs / get_mub_circuits hand out for a configuration is, entry by entry and in file order, what the lines of that
+    configuration's file say (bases as the strings before the ':', circuits as the gates the tokens name)"""
+    from . import consteval
+    from .consteval import CE, CERaise, Recorder
+    rep.rule("K20", "for every advertised MUB configuration, get_mubs returns the bases and get_mub_circuits the circuits of ALL lines of that configuration's file, in file order (accessors evaluated on the shipped files, compared with an independent parse of the same text)", floor=20, exhaustive=True)
+    sym = {"cz", "swap"}
+
+    def norm(log):
+        out = []
+        for ent in log:
+            nm, qs = ent[0], tuple(ent[1:])
+            out.append((nm,) + (tuple(sorted(qs)) if nm in sym else qs))
+        return out
+    for tf in T.adv_mub:
+        if any(L.problems for L in tf.lines):
+            continue        # malformed text is reported by T2 / T7
+        want_b = [list(L.paulis) for L in tf.lines]
+        want_c = [norm([(op.name,) + tuple(op.qubits) for op in L.ops]) for L in tf.lines]
+        for fq in fqs:
+            f = flow.prog.func(fq)
+            ce = CE(flow.prog, max_steps=50_000_000)
+            try:
+                got = ce.call_func(f, [tf.n, tf.conn], {})
+            except CERaise as ex:
+                rep.finding("K20", f"{fq}:{tf.name}:raise", f"{ex.where or f.module.rel}: {f.qualname}({tf.n}, {tf.conn!r}) raises {ex.etype} ({ex.msg[:80]})")
+                continue
+            if not isinstance(got, (list, tuple)):
+                rep.finding("K20", f"{fq}:{tf.name}:type", f"{f.module.rel} {f.qualname}({tf.n}, {tf.conn!r}) returns {type(got).__name__}, not a list")
+                continue
+            is_circ = bool(got) and all(isinstance(x, Recorder) for x in got)
+            if is_circ:
+                have, want, what = [norm(x.log) for x in got], want_c, "circuits"
+            else:
+                have, want, what = [list(x) if isinstance(x, (list, tuple)) else x for x in got], want_b, "bases"
+            if (fq.endswith("get_mub_circuits")) != is_circ and got:
+                rep.finding("K20", f"{fq}:{tf.name}:kind", f"{f.module.rel} {f.qualname}({tf.n}, {tf.conn!r}) returns {what}")
+                continue
+            if len(have) != len(want):
+                rep.finding("K20", f"{fq}:{tf.name}:count", f"{f.module.rel} {f.qualname}({tf.n}, {tf.conn!r}) returns {len(have)} {what}; {tf.name} has {len(want)} basis lines (2^{tf.n}+1 = {2 ** tf.n + 1})")
+                continue
+            bad = next((i for i in range(len(want)) if have[i] != want[i]), None)
+            if bad is not None:
+                rep.finding("K20", f"{fq}:{tf.name}:entry", f"{f.module.rel} {f.qualname}({tf.n}, {tf.conn!r}): entry {bad} is {str(have[bad])[:120]}; line {tf.lines[bad].lineno} of {tf.name} says {str(want[bad])[:120]}")
+            else:
+                rep.ok("K20", 1, nontrivial=(fq, tf.name), sample=f"{f.qualname}({tf.n}, {tf.conn!r}): {len(have)} {what}, all equal to the lines of {tf.name}")
 
 
 def key_leaves_of(k, r=None):
